@@ -65,7 +65,7 @@ func HarnessC15() {
 	unsupported := false
 	for i := 0; i < k; i++ {
 		e := envTarEntry{}
-		e.Name = c15Names[verif.Choose("name", len(c15Names))]
+		e.Name = c15Names[verif.Choose("name", verif.Param("nNames", len(c15Names)))]
 		e.Mode = int64(verif.Int("mode") & 0777)
 		e.Mtime = 1000 + int64(verif.Byte("mtime")&0x3f)
 		if verif.Param("atime", 0) == 1 && verif.Bool("atime") {
